@@ -107,6 +107,7 @@ package lexer
 // token shapes: what the text of each kind of token looks like (checked at every call of emit)
 //@ requires [token-shape,ident] t == token.IDENT ==> identRun(l.input, l.start, l.pos) && !isIdentRune(runeAt(l.input, l.pos))
 //@ requires [token-shape,one-line] t == token.COMMENT || t == token.COMMAND ==> noByte(l.input, l.start, l.pos, 10)
+//@ requires [token-shape,comment-runs-to-the-line-end] t == token.COMMENT ==> l.pos >= len(l.input) || runeAt(l.input, l.pos) == 10 || hasPrefixAt(l.input, l.pos, "\r\n")
 //@ requires [token-shape,string] t == token.STRING ==> l.pos - l.start >= 2 && l.input[l.start] == 34 && l.input[l.pos - 1] == 34 && noByte(l.input, l.start + 1, l.pos - 1, 34)
 //@ requires [token-shape,command] t == token.COMMAND ==> l.start < l.pos && l.input[l.pos - 1] != 13 && !isSpace(runeAt(l.input, l.start))
 //@ requires [token-shape,punctuation] (t == token.HASH ==> l.pos == l.start + 1 && hasPrefixAt(l.input, l.start, "#")) && (t == token.TASK ==> l.pos == l.start + 4 && hasPrefixAt(l.input, l.start, "task")) && (t == token.LPAREN ==> l.pos == l.start + 1 && hasPrefixAt(l.input, l.start, "(")) && (t == token.RPAREN ==> l.pos == l.start + 1 && hasPrefixAt(l.input, l.start, ")"))
